@@ -80,16 +80,17 @@ C12(e) ==
    version, whatever happened before it.                                                                                   *)
 V9(why) == [p |-> "C09", l |-> l, tr |-> Ev.id, why |-> why, h |-> 0]
 C09(e) ==
-  IF ~(e.res = "err" /\ e.call.op \in {"ins", "del"} /\ e.pok) THEN {}
-  ELSE IF ~WellFormed(e.pterm) THEN {V9("a node persisted after a failed operation does not have as many values as keys and one more child slot")} ELSE
+  \* (... or after one that met a fault and reported success all the same)
+  IF ~((e.res = "err" \/ (e.res = "ok" /\ e.hit > 0)) /\ e.call.op \in {"ins", "del"} /\ e.pok) THEN {}
+  ELSE IF ~WellFormed(e.pterm) THEN {V9("a node persisted after an operation that met a fault does not have as many values as keys and one more child slot")} ELSE
   LET n == Len(Entries(e.pterm))
   IN (IF ~Shape(e.pterm, e.pheight, e.cfg.layers, e.cfg.nk + 1)
-      THEN {V9("a version persisted after a failed operation violates the shape invariants at its recorded height")} ELSE {})
+      THEN {V9("a version persisted after an operation that met a fault violates the shape invariants at its recorded height")} ELSE {})
      \cup (IF e.psize = n THEN {}
            \* named deviation (known finding C09-insert-grow-size): the entry went in, the grow step failed, the size was not incremented
            ELSE IF GrowingInsert(e, Normal(e)) /\ e.psize = n - 1
            THEN {V9("after an Insert that failed in its grow step the persisted size is one less than the reachable entries")}
-           ELSE {V9("the size recorded in a version persisted after a failed operation differs from its reachable entries")})
+           ELSE {V9("the size recorded in a version persisted after an operation that met a fault differs from its reachable entries")})
 
 TFault == /\ l <= Len(Trace)
           /\ LET e == Ev
